@@ -95,6 +95,24 @@ def special_triangles(rng):
     # F: empty, one cell
     out.append(([], "empty"))
     out.append((cells_for([b.Metadata()], lambda mi, pi, ei: {"paid": 1})[:1], "one-cell"))
+    # M: sibling slices whose ONLY difference is a pair of values with colliding CPython hashes
+    metas = [b.Metadata(details={"v": -1}), b.Metadata(details={"v": -2}), b.Metadata(loss_details={"w": -1.0}),
+             b.Metadata(loss_details={"w": -2.0}), b.Metadata(per_occurrence_limit=0), b.Metadata(per_occurrence_limit=2 ** 61 - 1)]
+    out.append((cells_for(metas, lambda mi, pi, ei: {"paid": 10 * mi + ei}), "hash-colliding-sibling-slices"))
+    # anniversaries: period_end and evaluation_date on the same day number of the same month in other years,
+    # esp. 28/29 February across leap / non-leap years (the month lag is NOT a whole number there)
+    cs = []
+    for (pe, evs) in [(D(2019, 2, 28), [D(2020, 2, 28), D(2021, 2, 28), D(2020, 2, 29)]),
+                      (D(2020, 2, 28), [D(2021, 2, 28), D(2024, 2, 28), D(2020, 2, 28)]),
+                      (D(2020, 2, 29), [D(2024, 2, 29), D(2021, 2, 28)]),
+                      (D(2019, 6, 15), [D(2020, 6, 15), D(2021, 6, 15)]),
+                      (D(2019, 4, 30), [D(2020, 4, 30), D(2020, 5, 30)]),
+                      (D(2100, 2, 28), [D(2104, 2, 28), D(2101, 2, 28)])]:
+        for ei, ev in enumerate(evs):
+            cs.append(b.CumulativeCell(period_start=D(pe.year, pe.month, 1), period_end=pe, evaluation_date=ev,
+                                       values={"paid": ei}, metadata=b.Metadata(country="US")))
+    rng.shuffle(cs)
+    out.append((cs, "anniversaries"))
     # D: datetime-like constructor arguments with a time of day; results must hold plain dates
 
     class MyDT(datetime.datetime):
@@ -307,6 +325,14 @@ def ops_for(t, rng, quick=True):
         import math
 
         fl = sorted({month_lag_any(c) for c in cells})
+        # whole numbers at and next to the fractional lags (an "anniversary" is not a whole number of months
+        # when the two months have different lengths)
+        whole = sorted({w + e for x in fl for w in (math.floor(x), math.ceil(x), round(x)) for e in (-0.01, 0, 0.01)
+                        if abs(w - x) < 0.2})
+        for x in pick_some(rng, whole, 9):
+            for key in ("min_dev", "max_dev"):
+                ops.append({"kind": "clip", "kw": {key: (int(x) if float(x).is_integer() and rng.random() < 0.5 else x),
+                                                   "dev_lag_unit": "month"}})
         for x in pick_some(rng, fl, 4, always=fl[:1] + fl[-1:]):
             for key, beyond in (("min_dev", math.inf), ("max_dev", -math.inf)):
                 ops.append({"kind": "clip", "kw": {key: x, "dev_lag_unit": "month"}})
